@@ -3,6 +3,10 @@
 //! case: `<index>\t<result>\t<trace>`.
 mod arena;
 mod ops;
+mod probe;
+
+#[global_allocator]
+static GLOBAL: probe::Counting = probe::Counting;
 
 use std::collections::HashMap;
 use std::io::{BufRead, Write};
